@@ -5,7 +5,7 @@ PROPERTY = "C12"
 LEVEL = "proof"
 CONTRACT_MODULES = ["contracts.c12"]
 CARRIERS = ["batchie.data.Screen.__init__", "batchie.retrospective.reveal_plates", "batchie.retrospective.mask_screen",
-            "batchie.retrospective.unmask_screen", "batchie.data.Screen.set_observed"]
+            "batchie.retrospective.unmask_screen", "batchie.data.Screen.set_observed", "batchie.cli.reveal_plate.main@call"]
 NATIVE = "c12.py"
 EXPLANATION = (
     "Screen.__init__ body proved (6 variants: arity 1-3, with/without observations, mask, supplied mappings) against the class "
